@@ -1107,6 +1107,10 @@ package zygo
 //@ ghost asked := true @after call Type[0]
 //@ ghost ety := ret0 @after call Type[0]
 //@ ghost sty := ret0 @after call GetOrCreateSliceType[0]
+// (C01) typing an array of arrays recurses; an array can be made to contain itself, and the typing
+// runs in BindSymbol, outside any recover: the generic Type() is never called on an element that
+// is itself an array (that descent is budgeted)
+//@ C01 assert element-recursion-is-budgeted @before call Type[0]: !typeis(arg0, *SexpArray)
 //@ C17 ensures typed-by-its-current-first-element: old(len(r.Val) > 0) ==> asked && (ety != nil ==> r0 == sty) && (ety == nil ==> r0 == nil)
 //@ C17 ensures empty-is-the-empty-slice-unless-typed: old(len(r.Val) == 0 && r.Typ != nil) ==> r0 == old(r.Typ)
 
